@@ -18,6 +18,14 @@ T = {
     "T6": "T6 Connection::write_decimal (R-stub-body; `write!` is outside Verus's subset) writes the canonical decimal text of its i64 argument; bounded stand-in: Kani harness on the verbatim body (thorough tier), never counted as proved",
     "T7": "T7 shim tokio::io::BufWriter<S>: write_u8/write_all append to a ghost output on Ok, flush marks it delivered, read_buf moves a NONDETERMINISTIC non-empty prefix of the ghost incoming stream into the buffer (0 exactly at end of stream); I/O errors possible at every call unless the ghost flag healthy() holds",
     "T13b": "T13b a slice / Vec of Frame holds at most isize::MAX elements; a Bytes holds at most isize::MAX bytes; every String is valid UTF-8",
+    "T8": "T8 shim DashMap (finite map; insert/remove/get/entry().or_default(); R-dashmap-iter enumerates some duplicate-free key list), RefCell::borrow_mut never fails, AtomicCell<bool>, parking_lot::Mutex::lock and crossbeam ArrayQueue hand out objects satisfying their invariant w.r.t. the current World (rely half of rely/guarantee; pool occupancy is a ghost counter in the World), BTreeSet<u64>",
+    "T9": "T9 shim lru::LruCache: a partial map that may forget any entry at any time (LogDir::{read,copy} are verified verbatim against it in unit log: cache transparency is proved)",
+    "T10": "T10 shim memmap2: map(&file) yields the file's content at the time of the call; a mapping never changes afterwards",
+    "T11": "T11 bincode as an abstract codec: what is written for an entry is determined by (tstamp, key, value) resp. (tstamp, len, pos, key); its length depends only on the entry (enc_len); deserialize_from consumes exactly one encoding; the serde derives of DataFileEntry / HintFileEntry are replaced by trusted view functions",
+    "T12": "T12 the World (prelude/store_prelude.rs): an entry-level model of the store directory written for this verification -- create_new+append creates a fresh empty file or fails, append extends a file at its end or fails leaving a possibly torn tail, flush moves buffered records into the file, remove_file removes one whole file, open/metadata/sorted_fileids read it; LogWriter::new / LogIterator::new (lseek on a regular file) do not fail; utils::{datafile_name,hintfile_name,sorted_fileids,timestamp} are stubs (format!, read_dir, chrono)",
+    "TLOG": "in unit store the World-level contracts of the log.rs API (contracts/log.spec) are ASSUMED (R-stub-body); unit log verifies the bodies of log.rs only against local byte-level contracts (contracts/log_local.spec): counter arithmetic, slice bounds after re-mapping, cache transparency, open flags, (pos,len) bookkeeping, flush before acknowledgement. The refinement between the two levels is argued, not machine-checked",
+    "TARC": "R-arc: Arc<Context>/Arc<Mutex<Writer>>/Arc<ArrayQueue<Reader>> are read as single owners; that Writer, Readers and Handle share ONE Context (wired by the unverified Bitcask::open) is assumed. No interleaving is explored",
+    "T13s": "T13 environment bounds assumed as World well-formedness: every file shorter than 2^62 bytes, fewer than 2^48 records per file, file ids below 2^62",
     "RW": "the rewrite rules of DESIGN.md section 2.2 preserve the meaning of the extracted text (each application is logged in rewrite_rules_applied)",
     "DERIVE": "derive-generated code (Debug, PartialEq, Eq) and thiserror's Display impls are not verified; the From impls for #[from] fields are regenerated literally",
 }
@@ -44,6 +52,75 @@ PROPS = {
             "equality of decoded and written frames is proved on their views (fview); injectivity of String::as_bytes / Bytes content is T5/T4",
             "real sockets and tokio's BufWriter implementation are outside (T7); Display for i64 is covered only by T6's bounded stand-in",
             "in unit net the contracts of frame.rs are assumed (R-stub-body) because they are verified in unit resp, which this check also runs",
+        ],
+    },
+    "C01": {
+        "units": ["store", "log"], "label_prefixes": ["C01."], "level": "proof",
+        "trusted": ["T1", "T4", "T8", "T11", "T12", "T13", "T13s", "TLOG", "TARC", "RW", "DERIVE"] + ["T9", "T10"],
+        "assumptions": [
+            "step contracts are proved on Writer::{put,delete,merge,new_active_datafile} and Reader::get (the Handle methods only add the closed check and the lock / pool hand-off, T8); 'for every history' follows because every operation requires and re-establishes the same invariant (Index + WriterWf + StatsWeak) and states its effect on the whole map",
+            "Err results are C20's business; after a failed append the torn-tail finding (known_findings.txt) applies",
+            "configurations: max_file_size is an unconstrained u64 in every contract; reader-cache size enters only through T9; concurrency only through T8",
+        ],
+    },
+    "C02": {
+        "units": ["store", "log"], "label_prefixes": ["C02."], "level": "proof",
+        "trusted": ["T1", "T4", "T8", "T11", "T12", "T13", "T13s", "TLOG", "TARC", "RW", "DERIVE"],
+        "assumptions": [
+            "start-up is specified independently of the code as spec_recover(w) = fold over the directory log (files in ascending id order, hint file instead of data file where one exists; a value binds, a tombstone unbinds); rebuild_storage is proved to compute exactly it, and put / delete / rollover are proved to keep spec_recover(w) == key directory",
+            "Bitcask::open itself (rebuild_storage + create the next data file + thread spawn) is not extracted; creating the fresh empty active file is covered by lemma_log_new_file (C02.rollover.log_unchanged)",
+            "merges: that a merge keeps spec_recover == key directory is C05's obligation, not claimed here",
+            "hint files are assumed consistent (hints_ok) at open; merge is proved to establish this (C12)",
+        ],
+    },
+    "C04": {
+        "units": ["store", "log"], "label_prefixes": ["C04."], "level": "proof",
+        "trusted": ["T1", "T4", "T8", "T11", "T12", "T13", "T13s", "TLOG", "TARC", "RW", "DERIVE"] + ["T9", "T10"],
+        "assumptions": [
+            "SCOPE: only the sequential rely/guarantee obligations are machine-checked: every key-directory entry published by put / merge names a complete, flushed record (Index at every guard release, C04.*.valid_location at every read/copy), LogReader's slice is in bounds after the conditional re-map whenever the FILE is long enough (C04.reader.slice_in_bounds), append flushes before returning (C04.append.flushed_before_ack), Handle::get returns its reader to the pool on every path and the `expect` on push cannot fail (C04.get.pool_preserved)",
+            "NOT covered: actual interleavings, DashMap shard locking, memory ordering, the real ArrayQueue, termination of the spin loop in Handle::get (exec_allows_no_decreases_clause), linearizability itself. Argued only: writers are serialised by the Mutex; a reader's linearisation point is its keydir.get; published records are immutable (C14)",
+        ],
+    },
+    "C12": {
+        "units": ["store"], "label_prefixes": ["C12.", "C02.hintfile", "C02.datafile", "C02.rebuild"], "level": "proof",
+        "trusted": ["T1", "T4", "T8", "T11", "T12", "T13", "T13s", "TLOG", "TARC", "RW", "DERIVE"],
+        "assumptions": [
+            "C12.hint_equiv (pure lemma): HintConsistent(w) implies spec_recover(w) == spec_recover_nohint(w); merge is proved to establish / keep HintConsistent for every output file, across in-loop rollovers; the loader is proved to compute the two folds",
+            "removing every hint file is the World transformation hint := empty",
+        ],
+    },
+    "C14": {
+        "units": ["store", "log"], "label_prefixes": ["C14."], "level": "proof",
+        "trusted": ["T1", "T4", "T8", "T11", "T12", "T13", "T13s", "TLOG", "TARC", "RW", "DERIVE"],
+        "assumptions": [
+            "(a) the World offers no overwrite / truncate / rename / reopen-for-write operation, and extracted code can only change the directory through it; (b) log::create is proved to open with exactly {append, create_new} and log::open with {read} (unit log); (c) every creation site satisfies C14.create.fresh (id above every id the directory ever contained; a hint file only for an existing data file without one); (d) after every Ok write / merge the active file's last record starts at or below max_file_size (C14.size.one_entry)",
+            "crash clause ('after a crash at any point'): not covered -- only the id chosen at open is proved larger than every existing id (C14.open.fresh_id)",
+            "code that is not extracted (Bitcask::open wiring, binaries) could open files another way",
+        ],
+    },
+    "C17": {
+        "units": ["store"], "label_prefixes": ["C17."], "level": "proof",
+        "trusted": ["T1", "T4", "T8", "T11", "T12", "T13", "T13s", "TLOG", "TARC", "RW", "DERIVE"],
+        "assumptions": [
+            "SCOPE: the first two clauses only -- closed ==> every Handle operation returns Err(Closed) and leaves the World unchanged; close sets the flag (R-interior: the AtomicCell store through &self is read as &mut self)",
+            "NOT covered: the background thread exiting promptly, thread / fd accumulation over open/close cycles, Drop for Bitcask (Verus models neither Drop nor threads)",
+        ],
+    },
+    "C19": {
+        "units": ["store", "log"], "label_prefixes": ["C19."], "level": "proof",
+        "trusted": ["T1", "T4", "T8", "T11", "T12", "T13", "T13s", "TLOG", "TARC", "RW", "DERIVE"],
+        "assumptions": [
+            "ground truth is defined over the records of each file: a record is live iff the key directory points at it; live / dead counts and dead bytes are recursive sums over the record sequence (no set cardinalities)",
+            "exactness is proved for Ok exits of put, delete, merge and for rebuild_storage (from data files and from hint files); after a failed operation only the weak relation (never under-count live keys) is proved, which is what keeps later operations panic-free",
+        ],
+    },
+    "C20": {
+        "units": ["store"], "label_prefixes": ["C20."], "level": "proof",
+        "trusted": ["T1", "T4", "T8", "T11", "T12", "T13", "T13s", "TLOG", "TARC", "RW", "DERIVE"],
+        "assumptions": [
+            "fault model: every World operation may fail nondeterministically (one or many faults, any position); a failed append may leave a torn tail, a failed flush a partial record",
+            "proved at every error exit of write / put / delete / new_active_datafile: Index, WriterWf, StatsWeak, the model is unchanged, and after a restart the failed operation is applied or not applied, no other key affected",
+            "merge: only its Ok exits are under contract so far; error exits of merge are not claimed (see DESIGN.md, D8)",
         ],
     },
 }
